@@ -310,14 +310,27 @@ def replay(path):
     def from_json(x):
         return tuple(from_json(y) for y in x) if isinstance(x, list) else x
 
+    if ent.get("kind") == "from-algosdk":
+        import algosdk.abi as SDK
+        from pyteal.ast.abi.util import type_spec_from_algosdk
+        ck = Check("C19", "quick")
+        r = call_real(type_spec_from_algosdk, SDK.ABIType.from_string(ent["str_b"]))
+        f = oracle_pair(ck, str(r[1]), ent["str_b"], ck.rng, 3) if r[0] == "ok" else None
+        print("type_spec_from_algosdk(%s) = %s; oracle: %s" % (ent["str_b"], str(r[1]) if r[0] == "ok" else r[1:], "same encoding / refused" if f is None else f))
+        if f is not None:
+            print("VIOLATION property=C19 replay=%s" % path)
+            return 1
+        return 0
     if "a_json" not in ent:
         print("replay file has no single failing pair (kind=%s): %s" % (ent.get("kind"), ent.get("what", "")[:300]))
         return 2
     ta, tb = from_json(ent["a_json"]), from_json(ent["b_json"])
-    A, B = AB.to_pyteal(ta), AB.to_pyteal(tb)
+    A = AB.to_pyteal(ta)
+    B = call_real(AB.to_pyteal, tb)
+    B = B[1] if B[0] == "ok" else None      # (a signature parameter such as uint24 has no PyTeal spec)
     ck = Check("C19", "quick")
     kind = ent.get("kind", "")
-    if kind.startswith("gate-set") or kind.startswith("gate-store-into"):
+    if kind.startswith("gate-set") or kind.startswith("gate-store-into") or kind == "gate-methodcall-signature":
         import pyteal as pt
         from pyteal import abi
 
@@ -347,6 +360,8 @@ def replay(path):
             e = h[0].store_into(B.new_instance())
             return [pt.compileTeal(pt.Seq(h.decode(pt.Txn.application_args[0]), e, pt.Approve()), pt.Mode.Application, version=v) for v in (6, 8)]
 
+        calls["gate-methodcall-signature"] = lambda: pt.InnerTxnBuilder.MethodCall(
+            app_id=pt.Int(1), method_signature="f(%s)void" % ent["str_b"], args=[A.new_instance()])
         calls.update({"gate-store-into-returned": _returned,
                       "gate-store-into-tuple-element": lambda: _element(abi.TupleTypeSpec(A, abi.BoolTypeSpec())),
                       "gate-store-into-darr-element": lambda: _element(abi.DynamicArrayTypeSpec(A)),
@@ -773,6 +788,112 @@ def main(argv):
                 si_stats["store_into_accepted"] += ok
                 record("gate-store-into-" + kind, ta, tb, str(A), str(B), want, ok, "accepted" if ok else how)
     gates.update(si_stats)
+    # ---- method signatures: type_spec_from_algosdk and the MethodCall parameter gate on every uint width ----
+    import algosdk.abi as SDK
+    from pyteal.ast.abi.util import type_spec_from_algosdk
+
+    class _Unsupported(Exception):
+        pass
+
+    def term_of_sdk(a):
+        """algosdk type object -> plain term of the same ARC-4 type (ufixed has no term)"""
+        if isinstance(a, SDK.BoolType):
+            return "bool"
+        if isinstance(a, SDK.ByteType):
+            return "byte"
+        if isinstance(a, SDK.UintType):
+            return ("uint", a.bit_size)
+        if isinstance(a, SDK.AddressType):
+            return "address"
+        if isinstance(a, SDK.StringType):
+            return "string"
+        if isinstance(a, SDK.ArrayStaticType):
+            return ("sarr", term_of_sdk(a.child_type), a.static_length)
+        if isinstance(a, SDK.ArrayDynamicType):
+            return ("darr", term_of_sdk(a.child_type))
+        if isinstance(a, SDK.TupleType):
+            return ("tuple",) + tuple(term_of_sdk(c) for c in a.child_types)
+        raise _Unsupported(str(a))
+
+    def pyteal_has(t):
+        return all(pyteal_has(x) for x in AB.children(t)) and not (not isinstance(t, str) and t[0] == "uint" and t[1] not in (8, 16, 32, 64))
+
+    sig_stats = {"from_algosdk_strings": 0, "from_algosdk_supported": 0, "from_algosdk_refused": 0, "sig_gate_calls": 0, "sig_gate_accepted": 0}
+    widths = list(range(8, 520, 8))
+    leaves = ["uint%d" % n for n in widths] + ["byte", "bool", "address", "string", "ufixed64x2", "ufixed8x1", "ufixed128x10", "ufixed512x160"]
+    pool = list(leaves)
+    for L in ["uint24", "uint40", "uint56", "uint72", "uint128", "uint256", "uint512", "uint64", "uint8", "byte", "ufixed64x2", "bool", "string", "address"]:
+        pool += ["%s[]" % L, "%s[3]" % L, "(%s)" % L, "(bool,%s)" % L, "(%s,string)[]" % L, "((%s))[2]" % L, "%s[2][]" % L]
+    for _ in range(600 if thorough else 150):
+        t = plain(AB.rand_type(ck.rng, ck.rng.choice([1, 2, 3]), special=0.0, named=0.0))
+
+        def widen(x):
+            if not isinstance(x, str) and x[0] == "uint" and ck.rng.random() < 0.4:
+                return ("uint", ck.rng.choice(widths))
+            if isinstance(x, str):
+                return x
+            if x[0] == "sarr":
+                return ("sarr", widen(x[1]), x[2])
+            if x[0] == "darr":
+                return ("darr", widen(x[1]))
+            if x[0] == "tuple":
+                return ("tuple",) + tuple(widen(y) for y in x[1:])
+            return x
+        pool.append(AB.arc4_str(widen(t)))
+    pool = list(dict.fromkeys(pool))
+    for sstr in pool:
+        a = SDK.ABIType.from_string(sstr)
+        canon_s = str(a)
+        ck.count(("from-algosdk", canon_s))
+        sig_stats["from_algosdk_strings"] += 1
+        try:
+            term = term_of_sdk(a)
+            supported = model.ask((S("fromsdk"), AB.ty_sx(term))) == S("true")
+            if supported != pyteal_has(term):
+                ck.model_problem("sdk_supported disagrees with the harness on %s" % canon_s)
+        except _Unsupported:
+            term, supported = None, False
+        r = call_real(type_spec_from_algosdk, a)
+        if supported:
+            sig_stats["from_algosdk_supported"] += 1
+            E = AB.to_pyteal(term)
+            good = (r[0] == "ok" and str(r[1]) == canon_s and type(r[1]) is type(E) and r[1] == E and E == r[1]
+                    and r[1].is_dynamic() == a.is_dynamic() and (a.is_dynamic() or r[1].byte_length_static() == a.byte_len()))
+        else:
+            sig_stats["from_algosdk_refused"] += 1
+            good = r[0] == "exc" and r[1] == "TealInputError"
+        if not good:
+            got = str(r[1]) if r[0] == "ok" else None
+            f = oracle_pair(ck, got, canon_s, ck.rng, 2) if got is not None else None
+            if f is not None:
+                sem_fail.append(dict(f, kind="from-algosdk", str_a=got, str_b=canon_s, a="type_spec_from_algosdk(%s)" % canon_s, b=canon_s,
+                                     why="the signature type %s is read as %s: %s" % (canon_s, got, f.get("why"))))
+            else:
+                mism.append({"kind": "type_spec_from_algosdk", "type_string": canon_s, "real": repr(r)[:200], "model_supported": supported})
+    for sstr in AB.REF_KINDS + list(AB.TXN_STR.values()):
+        r = call_real(type_spec_from_algosdk, sstr)
+        ck.count(("from-algosdk", sstr), nontrivial=False)
+        if r[0] != "ok" or str(r[1]) != sstr:
+            mism.append({"kind": "type_spec_from_algosdk", "type_string": sstr, "real": repr(r)[:200]})
+    # the MethodCall gate with parameters of every width (and nested), arguments of the PyTeal uint classes
+    params = [("uint", n) for n in (8, 16, 24, 32, 40, 48, 56, 64, 72, 128, 256, 512)] + ["byte"]
+    params += [("tuple", ("uint", n), "bool") for n in (24, 64, 128)] + [("sarr", ("uint", n), 2) for n in (40, 64)] + \
+              [("darr", ("uint", n)) for n in (8, 72, 64)] + [("tuple", ("tuple", ("uint", 56)))]
+    argts = [("uint", 8), ("uint", 16), ("uint", 32), ("uint", 64), "byte", ("tuple", ("uint", 64), "bool"), ("tuple", ("uint", 8), "bool"),
+             ("sarr", ("uint", 64), 2), ("darr", ("uint", 64)), ("darr", ("uint", 8)), ("darr", "byte"), ("tuple", ("tuple", ("uint", 64)))]
+    MCM = matrix(model, "mcmatrix", argts, params)
+    for j, tp in enumerate(params):
+        pstr = AB.arc4_str(tp)
+        sig = "f(%s)void" % pstr
+        for i, ta in enumerate(argts):
+            A = AB.to_pyteal(ta)
+            r = call_real(lambda: pt.InnerTxnBuilder.MethodCall(app_id=pt.Int(1), method_signature=sig, args=[A.new_instance()]))
+            ck.count(("gate-mc-sig", ta, tp))
+            sig_stats["sig_gate_calls"] += 1
+            ok = r[0] == "ok"
+            sig_stats["sig_gate_accepted"] += ok
+            record("gate-methodcall-signature", ta, tp, str(A), pstr, MCM[i][j] == "1", ok, "accepted" if ok else r[1])
+    gates.update(sig_stats)
     ck.coverage["gates"] = gates
 
     # ---------------- 6. known findings ----------------
@@ -798,7 +919,10 @@ def main(argv):
             ck.known(k["id"], k["what"])
             continue
         if reported < 5:
-            ck.violation("type_spec_is_assignable_to(%s, %s) is True but %s" % (f.get("str_a"), f.get("str_b"), f.get("why")), f)
+            if f.get("kind") == "from-algosdk":
+                ck.violation("type_spec_from_algosdk: %s (an argument of that spec is then accepted for the parameter)" % f.get("why"), f)
+            else:
+                ck.violation("type_spec_is_assignable_to(%s, %s) is True but %s" % (f.get("str_a"), f.get("str_b"), f.get("why")), f)
             reported += 1
     gate_sem = 0
     for f in gate_fail:
